@@ -170,6 +170,18 @@ theorem non_staker_not_credited (a : Addr) (lp : List ((Addr Ã— Nat) Ã— (TxKey Ã
 
 end Pegnet.C14
 
+namespace Pegnet.C14
+open Pegnet
+/-- the shipped schedule, regenerated from config/activations.go and fat/fat2/activations.go on every
+    run, against the values this property was read with: the heights from which snapshots pay stakers and an unrated snapshot block borrows rates. Every scenario of the harness
+    runs on a compressed schedule that overwrites these constants, so nothing else would notice one of
+    them moving; a moved height is a different protocol, not a rewrite. -/
+theorem shipped_schedule :
+    let a := Generated.activations
+    Generated.activationsComplete = true âˆ§ a.v20 = 258796 âˆ§ a.v202 = 274036 := by
+  decide
+end Pegnet.C14
+
 #print axioms Pegnet.C14.stakeReqs_keys_nodup
 #print axioms Pegnet.C14.payout_cap
 #print axioms Pegnet.C14.payout_exact_when_over
@@ -183,3 +195,4 @@ end Pegnet.C14
 #print axioms Pegnet.C14.joined_row_is_both_snapshots
 #print axioms Pegnet.C14.staking_payout_exact
 #print axioms Pegnet.C14.non_staker_not_credited
+#print axioms Pegnet.C14.shipped_schedule
